@@ -78,9 +78,16 @@ def spec_apply_to_arrays():
     return LoopSpec(carried={}, cells=[lambda env: env.vars["self"].fields["_blocks"]], invariant=inv, pre_capture=cap)
 
 
+DTN = TOpaque("DTypeName")
+dtn_contains = z3.Function("dtype_name_contains", DTN.sort(), z3.StringSort(), z3.BoolSort())
+
+
 def install(it):
     install_rekey_hooks(it)
     it.loop_specs[(AQ, 0)] = spec_apply_to_arrays()
+    # x.dtype is the dtype name of ONE (arbitrary) stored block; nothing is known about it or about what it contains
+    it.summaries["block_core.BlockBase.dtype"] = lambda it_, a, k: SV(it_.ctx.fresh("dtype_of_some_block", DTN), DTN)
+    it.opaque_contains = dict(getattr(it, "opaque_contains", {}), DTypeName=lambda it_, cont, v: dtn_contains(cont.t, z3.StringVal(v)) if isinstance(v, str) else (_ for _ in ()).throw(Unsupported("membership test on a dtype name")))
 
     def binop_hook(it_, op, a, b):
         if isinstance(a, SV) and a.ty == BLK and isinstance(b, SV) and b.ty == SCAL:
